@@ -217,6 +217,8 @@ class _Parser:
                     if k2 is None:
                         raise YamlError("expected mapping entry at %r" % self.lines[self.i][1])
                     self.i += 1
+                    if k2[0] in m:
+                        raise YamlError("duplicate key %r in mapping" % (k2[0],))
                     m[k2[0]] = self.nested(indent + 2) if k2[1] is None else _scalar(k2[1])
                 out.append(m)
             else:
@@ -246,6 +248,9 @@ class _Parser:
                 raise YamlError("expected 'key: value' at %r" % text)
             key, val = kv
             self.i += 1
+            if key in out:
+                # ruamel's RoundTripLoader (allow_duplicate_keys False) raises DuplicateKeyError
+                raise YamlError("duplicate key %r in mapping" % (key,))
             if val is None:
                 out[key] = self.nested(indent)
             else:
